@@ -104,8 +104,9 @@ class Site:
         return self.body.where(self.block)
 
 
-def reach(prog, entries):
-    """Local bodies reachable from the entries (closures, local callees, dyn calls -> all impls)."""
+def reach(prog, entries, exclude=()):
+    """Local bodies reachable from the entries (closures, local callees, dyn calls -> all impls).
+    Bodies whose path starts with an `exclude` prefix are cut out of the graph."""
     def extra(b):
         out = []
         for _, t in b.calls():
@@ -115,7 +116,20 @@ def reach(prog, entries):
                     if f.get("trait_item") == tr_item and p in prog.bodies:
                         out.append(p)
         return out
-    return prog.reach_bodies(entries, extra_edges=extra)
+    got = prog.reach_bodies(entries, extra_edges=extra)
+    if exclude:
+        # recompute without walking through excluded bodies
+        seen = set()
+        work = list(entries)
+        while work:
+            p = work.pop()
+            if p in seen or p not in prog.bodies or any(p.startswith(x) or ("<" + x) in p for x in exclude):
+                continue
+            seen.add(p)
+            work.extend(prog.local_callees(prog.bodies[p]))
+            work.extend(extra(prog.bodies[p]))
+        return seen
+    return got
 
 
 def sites_of(prog, body):
@@ -710,8 +724,8 @@ def _is_element_counter(prog, body, op):
     return body.local_ty(l) == "usize"
 
 
-def inventory(prog, entries):
-    bodies = reach(prog, entries)
+def inventory(prog, entries, exclude=()):
+    bodies = reach(prog, entries, exclude)
     sites = []
     for p in sorted(bodies):
         b = prog.bodies[p]
